@@ -1,5 +1,5 @@
 SPECIFICATION Spec
-CONSTANTS MaxStart = 45  MaxLen = 64  Variant = "doc"
+CONSTANTS MaxStart = 25  MaxLen = 45  Variant = "doc"
 INVARIANT InRange
 INVARIANT Monotone
 INVARIANT CountIsSteps
